@@ -905,14 +905,17 @@ def _async_worker(
                     for idx, possible_agent in enumerate(agents)
                 }
                 observation, reward, terminated, truncated, info = env.step(data)
-                transition = observation, reward, terminated, truncated, info
                 if all(
                     [
-                        term | trunc
-                        for term, trunc in zip(terminated.values(), truncated.values())
+                        terminated[agent] | truncated[agent]
+                        for agent in terminated.keys()
                     ]
                 ):
+                    # Every agent of this sub-environment has finished: start the next
+                    # episode and hand back its first observation (and info), together with
+                    # the reward / termination / truncation of the step that ended the episode
                     observation, info = env.reset()
+                transition = observation, reward, terminated, truncated, info
                 observation, reward, terminated, truncated, info = process_transition(
                     transition,
                     observation_space,
